@@ -322,3 +322,131 @@ Proof.
     cbn [parse_req_lines]. rewrite isnil_length by (rewrite app_length; pose proof (length_req_line r); lia).
     rewrite (parse_req_line_ok r _ Hr). cbn [bind]. rewrite IH by lia. reflexivity.
 Qed.
+
+(** * The document *)
+
+Definition Dpart (h : bool) (rs : list req) : str :=
+  if isnil rs then [] else sep h ++ s_requirements ++ flat_map req_line rs.
+
+Definition Cpart (h h' : bool) (ig : list str) (rs : list req) : str :=
+  (if isnil ig then [] else sep h ++ s_ignore_eq ++ encode_array ig ++ [10]) ++ Dpart h' rs.
+
+Definition opt_str (prefix s : str) : str := if isnil s then [] else prefix ++ encode_string s ++ [10].
+
+Lemma reqs_part_ok rs h : Forall req_strings_ok rs -> parse_reqs_part (Dpart h rs) = Some rs.
+Proof.
+  intros Hrs. destruct rs as [|r rs]; [reflexivity|].
+  assert (E : parse_reqs_part (Dpart h (r :: rs)) =
+              parse_req_lines (length (flat_map req_line (r :: rs))) (flat_map req_line (r :: rs))).
+  { unfold parse_reqs_part, Dpart. cbn [isnil].
+    destruct h; cbn [sep app]; change (skip_blank _) with (s_requirements ++ flat_map req_line (r :: rs));
+      change (isnil (s_requirements ++ flat_map req_line (r :: rs))) with false; cbv iota;
+      rewrite strip_prefix_app; reflexivity. }
+  rewrite E. apply parse_req_lines_ok; [exact Hrs|apply length_flat_map_req].
+Qed.
+
+Lemma reqs_part_skip rs h : parse_reqs_part (skip_blank (Dpart h rs)) = parse_reqs_part (Dpart h rs).
+Proof. destruct rs as [|r rs]; [reflexivity|]. destruct h; reflexivity. Qed.
+
+Lemma opt_line_miss {A} prefix (p : str -> option (A * str)) dflt s :
+  strip_prefix prefix s = None -> opt_line prefix p dflt s = Some (dflt, s).
+Proof. intros H. unfold opt_line. now rewrite H. Qed.
+
+Lemma ignore_part_ok ig h h' rs : Forall utf8 ig ->
+  exists R', parse_ignore_part (Cpart h h' ig rs) = Some (ig, R') /\
+             parse_reqs_part R' = parse_reqs_part (Dpart h' rs).
+Proof.
+  intros Hig. destruct ig as [|a ig].
+  - exists (skip_blank (Dpart h' rs)). split; [|apply reqs_part_skip].
+    unfold Cpart, parse_ignore_part. cbn [isnil app]. apply opt_line_miss.
+    destruct rs as [|r rs]; [reflexivity|]. destruct h'; reflexivity.
+  - exists (Dpart h' rs). split; [|reflexivity].
+    unfold Cpart, parse_ignore_part. cbn [isnil].
+    assert (E : skip_blank ((sep h ++ s_ignore_eq ++ encode_array (a :: ig) ++ [10]) ++ Dpart h' rs)
+                = s_ignore_eq ++ encode_array (a :: ig) ++ 10 :: Dpart h' rs).
+    { destruct h; cbn [sep]; rewrite <- !app_assoc; reflexivity. }
+    rewrite E. unfold opt_line. rewrite strip_prefix_app.
+    rewrite (parse_array_ok (a :: ig) _ Hig) by discriminate. reflexivity.
+Qed.
+
+Lemma head_C h h' ig rs :
+  strip_prefix s_name_eq (Cpart h h' ig rs) = None /\ strip_prefix s_version_eq (Cpart h h' ig rs) = None.
+Proof.
+  unfold Cpart, Dpart. destruct ig as [|a ig]; destruct rs as [|r rs]; destruct h; destruct h'; split; reflexivity.
+Qed.
+
+Lemma opt_str_step prefix n X : utf8 n -> strip_prefix prefix X = None ->
+  opt_line prefix parse_string [] (opt_str prefix n ++ X) = Some (n, X).
+Proof.
+  intros Hn HX. unfold opt_str. destruct (isnil n) eqn:En.
+  - destruct n; [|discriminate]. simpl app. now apply opt_line_miss.
+  - rewrite <- !app_assoc. unfold opt_line. rewrite strip_prefix_app.
+    rewrite (parse_string_ok n _ Hn). reflexivity.
+Qed.
+
+Lemma head_B v X : strip_prefix s_name_eq X = None -> strip_prefix s_name_eq (opt_str s_version_eq v ++ X) = None.
+Proof. intros HX. unfold opt_str. destruct (isnil v); [exact HX|reflexivity]. Qed.
+
+Definition strings_ok (c : config) : Prop :=
+  utf8 (c_name c) /\ utf8 (c_version c) /\ Forall utf8 (c_ignore c) /\ Forall req_strings_ok (c_reqs c).
+
+Lemma parse_write c : strings_ok c -> parse (write c) = Some c.
+Proof.
+  destruct c as [n v ig rs]. intros [Hn [Hv [Hig Hrs]]]. simpl in Hn, Hv, Hig, Hrs.
+  unfold write. cbn [c_name c_version c_ignore c_reqs].
+  change (parse (opt_str s_name_eq n ++ opt_str s_version_eq v ++
+                 Cpart (negb (isnil n) || negb (isnil v)) (negb (isnil n) || negb (isnil v) || negb (isnil ig)) ig rs)
+          = Some (mkConfig n v ig rs)).
+  set (h1 := negb (isnil n) || negb (isnil v)). set (h2 := h1 || negb (isnil ig)).
+  destruct (head_C h1 h2 ig rs) as [HC1 HC2].
+  unfold parse.
+  rewrite (opt_str_step s_name_eq n _ Hn (head_B v _ HC1)). cbn [bind].
+  rewrite (opt_str_step s_version_eq v _ Hv HC2). cbn [bind].
+  destruct (ignore_part_ok ig h1 h2 rs Hig) as [R' [E1 E2]].
+  rewrite E1. cbn [bind]. rewrite E2, (reqs_part_ok rs h2 Hrs). reflexivity.
+Qed.
+
+(** * Loading *)
+
+Lemma valid_strings_ok c : valid c -> strings_ok c.
+Proof.
+  intros [Hn [Hv [Hig [Hrs _]]]]. repeat split; auto.
+  eapply Forall_impl; [|exact Hrs]. intros r [H1 [H2 [H3 _]]]. repeat split; auto.
+Qed.
+
+Lemma map_clean rs : Forall valid_req rs ->
+  map (fun r => mkReq (r_name r) (clean_path (r_path r)) (r_version r)) rs = rs.
+Proof.
+  induction 1 as [|r rs Hr _ IH]; [reflexivity|].
+  simpl. rewrite IH. f_equal. destruct r as [rn rp rv]. destruct Hr as [_ [_ [_ [_ Hc]]]]. simpl in *. now rewrite Hc.
+Qed.
+
+Lemma load_write c : valid c -> load (write c) = Some c.
+Proof.
+  intros Hv. unfold load. rewrite (parse_write c (valid_strings_ok c Hv)).
+  destruct Hv as [_ [_ [_ [Hrs _]]]].
+  assert (Hsem : forallb (fun r => semver_canonical (r_version r)) (c_reqs c) = true).
+  { apply forallb_forall. intros r Hr. rewrite Forall_forall in Hrs. apply Hrs in Hr. apply Hr. }
+  rewrite Hsem, (map_clean _ Hrs). destruct c; reflexivity.
+Qed.
+
+Lemma write_stable c : valid c -> option_map write (load (write c)) = Some (write c).
+Proof. intros Hv. now rewrite (load_write c Hv). Qed.
+
+(** * The hypotheses are satisfiable *)
+
+Lemma utf8_ascii s : Forall (fun b => b < 128) s -> utf8 s.
+Proof.
+  intros H. exists (map (fun b => [b]) s). split.
+  - induction H as [|b s Hb _ IH]; constructor; [|exact IH].
+    unfold is_uchar, utf8_take. replace (b <? 128) with true by lia. reflexivity.
+  - clear H. induction s as [|b s IH]; [reflexivity|]. simpl. now rewrite <- IH.
+Qed.
+
+Lemma utf8_app a b : utf8 a -> utf8 b -> utf8 (a ++ b).
+Proof.
+  intros [ca [Ha ->]] [cb [Hb ->]]. exists (ca ++ cb). split; [now apply Forall_app|now rewrite concat_app].
+Qed.
+
+Lemma utf8_char ch : is_uchar ch = true -> utf8 ch.
+Proof. intros H. exists [ch]. split; [now constructor|simpl; now rewrite app_nil_r]. Qed.
